@@ -1017,7 +1017,14 @@ func r08_4(c *Ctx) {
 				continue
 			}
 			cnd := decodeIf(ifi)
-			if cnd.Y == nil || cnd.Op != token.LSS || cnd.X != ssa.Value(ind) || !l.Blocks[l.Head.Succs[cnd.succWhen(true)]] {
+			// `for i := range buf` is compiled as i' = phi(-1, i); i = i'+1; i < len(buf)
+			rangeForm := false
+			if b, ok := cnd.X.(*ssa.BinOp); ok && b.Op == token.ADD && b.X == ssa.Value(ind) {
+				if k, ok := constInt(b.Y); ok && k == 1 {
+					rangeForm = true
+				}
+			}
+			if cnd.Y == nil || cnd.Op != token.LSS || (cnd.X != ssa.Value(ind) && !rangeForm) || !l.Blocks[l.Head.Succs[cnd.succWhen(true)]] {
 				shapeOK = false
 				continue
 			}
@@ -1025,6 +1032,12 @@ func r08_4(c *Ctx) {
 			for i, e := range ind.Edges {
 				if !l.Blocks[l.Head.Preds[i]] {
 					from = describe(e)
+					if rangeForm {
+						from = "?"
+						if k, ok := constInt(e); ok && k == -1 {
+							from = "0"
+						}
+					}
 				}
 			}
 			rs = append(rs, rng{from, describe(cnd.Y), l.Head})
@@ -1042,6 +1055,17 @@ func r08_4(c *Ctx) {
 			if r.to == "head" || r.to == "count" || r.from == "head" || r.from == "count" || r.from == "tail" {
 				knownWrong = true
 			}
+		}
+		// Put order means starting at the slot asked for: an iteration none of whose ranges begins at startAt
+		// (one pass over the backing array with a membership test) yields the newest slots first on a wrapped ring
+		startsAtStart := false
+		for _, r := range rs {
+			if r.from == "startAt" {
+				startsAtStart = true
+			}
+		}
+		if !startsAtStart {
+			knownWrong = true
 		}
 		good := len(rs) == 3
 		var direct, upper, lower *rng
@@ -2736,6 +2760,110 @@ func r18_6(c *Ctx) {
 	// doGC under the due test
 	c.check(gcCall != nil && haveDue && factGuards(fn, gcCall.Block(), dueFact), fnLabel(fn)+":gc-when-due", P.pos(fn.Pos()), "Put collects when now - lastGC >= GCInterval says it is due", "Put does not run doGC under the due test (now - lastGC >= GCInterval)")
 	c.check(haveDue, fnLabel(fn)+":due-test", P.pos(fn.Pos()), "a collection is due when now - lastGC >= GCInterval", "Put does not compare now - lastGC with GCInterval")
+	// the collection is skipped only when the interval is off or it is not due yet: every other path to a
+	// successful return passes doGC (an extra condition in front of the due test lets expired messages pile up)
+	if gcCall != nil && haveDue {
+		blocked := map[cfgEdge]bool{}
+		isIv := func(v ssa.Value) bool { _, ok := isFieldLoad(v, "ValidReplayer", "GCInterval"); return ok }
+		// "due-like": the due comparison itself, or a boolean built from it that is false whenever it is false
+		// (`interval > 0 && due` materialised as a phi, or the result of an inlined predicate whose returns are
+		// the constant false or due-like values)
+		var isDueLike func(v ssa.Value, depth int) bool
+		isDueLike = func(v ssa.Value, depth int) bool {
+			if depth > 4 {
+				return false
+			}
+			if isDue(v) {
+				return true
+			}
+			if call, ok := v.(*ssa.Call); ok {
+				var lit *ssa.Function
+				switch f := call.Call.Value.(type) {
+				case *ssa.MakeClosure:
+					lit, _ = f.Fn.(*ssa.Function)
+				case *ssa.Function:
+					lit = f
+				}
+				if lit == nil || lit.Parent() == nil || lit.Blocks == nil {
+					return false
+				}
+				some := false
+				for _, r := range returnsOf(lit) {
+					if len(r.Results) != 1 {
+						return false
+					}
+					for _, src := range sources(r.Results[0]) {
+						if b, isC := constBool(src); isC && !b {
+							continue
+						}
+						if !isDueLike(src, depth+1) {
+							return false
+						}
+						some = true
+					}
+				}
+				return some
+			}
+			if ph, ok := v.(*ssa.Phi); ok {
+				some := false
+				for _, src := range sources(ph) {
+					if b, isC := constBool(src); isC && !b {
+						continue
+					}
+					if !isDueLike(src, depth+1) {
+						return false
+					}
+					some = true
+				}
+				return some
+			}
+			return false
+		}
+		isClockUnset := func(v ssa.Value) bool {
+			call, ok := isTimeCall(v, "IsZero")
+			if !ok {
+				return false
+			}
+			_, ok = isFieldLoad(call.Call.Args[0], "ValidReplayer", "lastGC")
+			return ok
+		}
+		for _, rf := range regionFuncs(fn) {
+			for _, ifi := range ifsInOnly(rf) {
+				if s, ok := boolEdge(ifi, func(v ssa.Value) bool { return isDueLike(v, 0) }); ok {
+					blocked[cfgEdge{ifi.Block(), 1 - s}] = true
+				}
+				// the very first Put only starts the clock: nothing can be due yet
+				if s, ok := boolEdge(ifi, isClockUnset); ok {
+					blocked[cfgEdge{ifi.Block(), s}] = true
+				}
+				if op, k, succ, ok := cmpConstEdge(ifi, isIv); ok {
+					switch {
+					case (op == token.GTR && k == 0) || (op == token.GEQ && k == 1) || (op == token.NEQ && k == 0):
+						blocked[cfgEdge{ifi.Block(), 1 - succ}] = true
+					case (op == token.LEQ && k == 0) || (op == token.LSS && k == 1) || (op == token.EQL && k == 0):
+						blocked[cfgEdge{ifi.Block(), succ}] = true
+					}
+				}
+			}
+		}
+		skipped := ""
+		for _, ret := range returnsOf(fn) {
+			if len(ret.Results) != 2 {
+				continue
+			}
+			success := true
+			for _, src := range sources(ret.Results[1]) {
+				if !isNilConst(src) {
+					success = false
+				}
+			}
+			if success && reachesAvoiding(entryPoint(fn), ret, func(in ssa.Instruction) bool { return in == ssa.Instruction(gcCall) }, blocked) {
+				skipped = P.ipos(ret)
+			}
+		}
+		c.check(skipped == "", fnLabel(fn)+":gc-whenever-due", P.ipos(gcCall), "Put skips the collection only when GCInterval is off or the interval has not passed",
+			"a Put can succeed without collecting although GCInterval is on and the interval has passed (a further condition stands in front of the due test): expired messages stay reachable until that condition happens to hold")
+	}
 }
 
 // R18.7: enqueue moves the read index (head) only when it has just overwritten the
